@@ -517,3 +517,457 @@ func init() {
 		return colGeometry(1 + r.Intn(4))
 	}, true)
 }
+
+// ---- C09: rows events, C15a: table maps, C16: headers and control events, C17a: validity gate ---------
+
+func bitsOf(bm *replication.Bitmap) []int {
+	out := []int{}
+	for i := 0; i < bm.Count(); i++ {
+		if bm.Bit(i) {
+			out = append(out, 1)
+		} else {
+			out = append(out, 0)
+		}
+	}
+	return out
+}
+
+func colsJ(cols []Col) []M {
+	out := []M{}
+	for _, c := range cols {
+		out = append(out, M{"name": B(c.Name), "typ": int(c.Typ), "metab": B(c.MetaB), "uns": c.Uns, "nullable": c.Nullable})
+	}
+	return out
+}
+
+// walkImage decodes an image column by column with CellBytes, returning the consumed lengths.
+func walkImage(tm *replication.TableMap, cols []Col, present *replication.Bitmap, nulls *replication.Bitmap, data []byte) M {
+	lens := []int{}
+	pos := 0
+	vi := 0
+	var werr error
+	rec := safely(func() {
+		for c := 0; c < present.Count(); c++ {
+			if !present.Bit(c) {
+				continue
+			}
+			if nulls.Bit(vi) {
+				vi++
+				continue
+			}
+			_, l, err := replication.CellBytes(data, pos, tm.Types[c], tm.Metadata[c], cols[c].Uns)
+			if err != nil {
+				werr = err
+				return
+			}
+			lens = append(lens, l)
+			pos += l
+			vi++
+		}
+	})
+	return M{"lens": lens, "total": pos, "err": werr != nil, "panic": rec.panicked}
+}
+
+func init() {
+	modes["c09"] = modeC09
+	modes["c15a"] = modeC15a
+	modes["c16"] = modeC16
+	modes["c17a"] = modeC17a
+}
+
+func rowsCase(e *Env, cfg WireCfg, t *Table, kind string, rows []RowPair, extra []byte, pb, pa []bool, cls string) {
+	f := realFormat(cfg)
+	tm, err := realMeta(cfg, f, t.Cols)
+	if err != nil {
+		panic(err)
+	}
+	body := rowsBody(cfg, kind, t, rows, extra, pb, pa)
+	raw := mkEvent(77, rowsType(cfg, kind), 1, 1000, 0, body, cfg.Checksum)
+	ev := replication.NewMysql56BinlogEvent(raw)
+	ev, _, _ = ev.StripChecksum(f)
+	var rs replication.Rows
+	var rerr error
+	rec := safely(func() { rs, rerr = ev.Rows(f, tm) })
+	obs := M{"err": rerr != nil, "panic": rec.panicked, "nrows": len(rs.Rows), "tid": strconv.FormatUint(ev.TableID(f), 10)}
+	orows := []M{}
+	if rerr == nil && !rec.panicked {
+		obs["presentB"] = bitsOf(&rs.IdentifyColumns)
+		obs["presentA"] = bitsOf(&rs.DataColumns)
+		for i := range rs.Rows {
+			r := &rs.Rows[i]
+			o := M{"id": B(append([]byte{}, r.Identify...)), "data": B(append([]byte{}, r.Data...)),
+				"nullsB": bitsOf(&r.NullIdentifyColumns), "nullsA": bitsOf(&r.NullColumns)}
+			if kind != "write" {
+				o["walkB"] = walkImage(tm, t.Cols, &rs.IdentifyColumns, &r.NullIdentifyColumns, r.Identify)
+			} else {
+				o["walkB"] = M{"lens": []int{}, "total": 0, "err": false, "panic": false}
+			}
+			if kind != "delete" {
+				o["walkA"] = walkImage(tm, t.Cols, &rs.DataColumns, &r.NullColumns, r.Data)
+			} else {
+				o["walkA"] = M{"lens": []int{}, "total": 0, "err": false, "panic": false}
+			}
+			orows = append(orows, o)
+		}
+	} else {
+		obs["presentB"], obs["presentA"] = []int{}, []int{}
+	}
+	obs["rows"] = orows
+	arows := []M{}
+	for _, r := range rows {
+		arows = append(arows, M{"b": cellsJ(r.B, t), "a": cellsJ(r.A, t)})
+	}
+	emitCase(e, M{"fn": "rows", "cls": cls, "kind": kind, "v2": cfg.RowsV2, "tidw": cfg.TidW, "cksum": cfg.Checksum, "extra": len(extra),
+		"tid": strconv.FormatUint(t.ID, 10), "cols": colsJ(t.Cols), "pb": boolBits(pb), "pa": boolBits(pa), "rows": arows, "obs": obs})
+}
+
+func boolBits(b []bool) []int {
+	out := []int{}
+	for _, v := range b {
+		if v {
+			out = append(out, 1)
+		} else {
+			out = append(out, 0)
+		}
+	}
+	return out
+}
+
+// lengthClassCols: one representative of each length class of the row format.
+func lengthClassCols() []Col {
+	return []Col{colInt("tiny", false), colInt("short", false), colInt("int24", false), colInt("long", false), colInt("longlong", false),
+		colVarchar(100), colVarchar(300), colChar(10), colChar(300), colBit(10), colDecimal(14, 4), colTime2(3), colDateTime2(6), colTimestamp2(1),
+		colBlob(1), colBlob(2), colBlob(3), colBlob(4), colEnum(2), colSet(3), colGeometry(2), colYear(), colDate(), colDateTimeOld(), colFloat(), colDouble()}
+}
+
+func modeC09(e *Env) {
+	cfgs := allCfgs()
+	lc := lengthClassCols()
+	// (a) small shapes: 1..3 columns from the length classes, presence and NULL patterns, 0..2 rows, all kinds and versions
+	n := e.N(600, 20000)
+	for i := 0; i < n; i++ {
+		cfg := cfgs[i%len(cfgs)]
+		nc := 1 + e.R.Intn(3)
+		t := &Table{ID: uint64(1 + e.R.Intn(1<<20)), DB: "d", Name: "t"}
+		if cfg.TidW == 6 && e.R.Intn(2) == 0 {
+			t.ID = uint64(e.R.Int63n(1 << 48))
+		}
+		for c := 0; c < nc; c++ {
+			col := lc[e.R.Intn(len(lc))]
+			col.Name = "c" + itoa(c)
+			t.Cols = append(t.Cols, col)
+		}
+		rowsRandom(e, cfg, t, e.R.Intn(3), "small")
+	}
+	// (b) wide: all types x full metadata domain, up to 300 columns, up to 50 rows
+	m := e.N(40, 1200)
+	for i := 0; i < m; i++ {
+		cfg := cfgs[e.R.Intn(len(cfgs))]
+		nc := 1 + e.R.Intn(e.N(60, 300))
+		if i%7 == 0 {
+			nc = 250 + e.R.Intn(51) // column counts around the 1-byte / 3-byte length-encoded boundary (251)
+		}
+		t := &Table{ID: uint64(1 + e.R.Intn(1<<20)), DB: "dw", Name: "tw"}
+		for c := 0; c < nc; c++ {
+			col := randomCol(e.R)
+			col.Name = "c" + itoa(c)
+			t.Cols = append(t.Cols, col)
+		}
+		rowsRandom(e, cfg, t, e.R.Intn(e.N(6, 50)+1), "wide")
+	}
+}
+
+func rowsRandom(e *Env, cfg WireCfg, t *Table, nrows int, cls string) {
+	kind := pickS(e.R, "write", "update", "delete")
+	nc := len(t.Cols)
+	pb, pa := genPresent(e.R, nc), genPresent(e.R, nc)
+	var rows []RowPair
+	none := make([]bool, nc)
+	for r := 0; r < nrows; r++ {
+		rp := RowPair{B: genImage(e.R, t, none, 0), A: genImage(e.R, t, none, 0)}
+		if kind != "write" {
+			rp.B = genImage(e.R, t, pb, 30)
+		}
+		if kind != "delete" {
+			rp.A = genImage(e.R, t, pa, 30)
+		}
+		rows = append(rows, rp)
+	}
+	var extra []byte
+	if cfg.RowsV2 {
+		extra = randBytes(e.R, pick(e.R, 0, 1, 8, e.R.Intn(40)))
+	}
+	rowsCase(e, cfg, t, kind, rows, extra, pb, pa, cls)
+}
+
+// modeC15a: table-map events.
+func modeC15a(e *Env) {
+	cfgs := allCfgs()
+	n := e.N(300, 8000)
+	for i := 0; i < n; i++ {
+		cfg := cfgs[i%len(cfgs)]
+		f := realFormat(cfg)
+		nc := 1 + e.R.Intn(12)
+		switch i % 6 {
+		case 1:
+			nc = 245 + e.R.Intn(12) // around 251
+		case 2:
+			nc = 1 + e.R.Intn(600)
+		}
+		t := &Table{ID: uint64(e.R.Intn(1 << 30)), DB: randName(e.R, 1+e.R.Intn(20)), Name: randName(e.R, 1+e.R.Intn(30))}
+		if i%9 == 0 {
+			t.DB, t.Name = string(randBytes(e.R, 255)), string(randBytes(e.R, 255))
+		}
+		if cfg.TidW == 6 && i%2 == 0 {
+			t.ID = uint64(e.R.Int63n(1 << 48))
+		}
+		for c := 0; c < nc; c++ {
+			col := randomCol(e.R)
+			col.Nullable = e.R.Intn(2) == 0
+			t.Cols = append(t.Cols, col)
+		}
+		tail := optTail(e.R)
+		if i%4 == 0 {
+			tail = randBytes(e.R, 1+e.R.Intn(60))
+		}
+		raw := mkEvent(5, tTableMap, 3, 800, 0, tableMapBody(cfg, t, tail), cfg.Checksum)
+		ev := replication.NewMysql56BinlogEvent(raw)
+		ev, _, _ = ev.StripChecksum(f)
+		var tm *replication.TableMap
+		var terr error
+		var tid uint64
+		rec := safely(func() { tid = ev.TableID(f); tm, terr = ev.TableMap(f) })
+		obs := M{"err": terr != nil, "panic": rec.panicked, "tid": strconv.FormatUint(tid, 10), "istm": ev.IsTableMap()}
+		if terr == nil && !rec.panicked && tm != nil {
+			types := []int{}
+			metas := []int{}
+			for c := range tm.Types {
+				types = append(types, int(tm.Types[c]))
+				metas = append(metas, int(tm.Metadata[c]))
+			}
+			obs["db"], obs["name"], obs["types"], obs["metas"], obs["nullable"] = B(tm.Database), B(tm.Name), types, metas, bitsOf(&tm.CanBeNull)
+		} else {
+			obs["db"], obs["name"], obs["types"], obs["metas"], obs["nullable"] = B(nil), B(nil), []int{}, []int{}, []int{}
+		}
+		emitCase(e, M{"fn": "tablemap", "cls": "tablemap", "tidw": cfg.TidW, "cksum": cfg.Checksum, "tid": strconv.FormatUint(t.ID, 10),
+			"db": B(t.DB), "name": B(t.Name), "cols": colsJ(t.Cols), "taillen": len(tail), "obs": obs})
+	}
+}
+
+// statusVars builds a status-variable block from a subset of the codes MySQL emits, in MySQL's order.
+func statusVars(r *rand.Rand) (vars []byte, charset []int, codes []int) {
+	type sv struct {
+		code byte
+		gen  func() []byte
+	}
+	nstr := func(max int) []byte { n := r.Intn(max + 1); return append([]byte{byte(n)}, randBytes(r, n)...) }
+	cs := []int{-1, -1, -1}
+	order := []sv{
+		{0, func() []byte { return randBytes(r, 4) }},
+		{1, func() []byte { return randBytes(r, 8) }},
+		{6, func() []byte { return nstr(20) }},
+		{3, func() []byte { return randBytes(r, 4) }},
+		{4, func() []byte {
+			a, b, c := r.Intn(65536), r.Intn(65536), r.Intn(65536)
+			cs = []int{a, b, c}
+			return append(append(le16(uint16(a)), le16(uint16(b))...), le16(uint16(c))...)
+		}},
+		{5, func() []byte { return nstr(30) }},
+		{7, func() []byte { return randBytes(r, 2) }},
+		{8, func() []byte { return randBytes(r, 2) }},
+		{9, func() []byte { return randBytes(r, 8) }},
+		{10, func() []byte { return randBytes(r, 4) }},
+		{11, func() []byte { return append(nstr(16), nstr(16)...) }},
+		{12, func() []byte {
+			n := r.Intn(4)
+			b := []byte{byte(n)}
+			for i := 0; i < n; i++ {
+				b = append(b, randName(r, 1+r.Intn(8))...)
+				b = append(b, 0)
+			}
+			return b
+		}},
+		{13, func() []byte { return randBytes(r, 3) }},
+		{16, func() []byte { return randBytes(r, 1) }},
+		{17, func() []byte { return randBytes(r, 8) }},
+		{18, func() []byte { return randBytes(r, 2) }},
+		{19, func() []byte { return randBytes(r, 1) }},
+		{20, func() []byte { return randBytes(r, 1) }},
+	}
+	for _, v := range order {
+		if r.Intn(2) == 0 {
+			vars = append(vars, v.code)
+			vars = append(vars, v.gen()...)
+			codes = append(codes, int(v.code))
+		}
+	}
+	return vars, cs, codes
+}
+
+// modeC16: event headers and control events, with and without a trailing CRC32.
+func modeC16(e *Env) {
+	n := e.N(400, 10000)
+	for i := 0; i < n; i++ {
+		for _, alg := range []int{0, 1, 255} {
+			cfg := codecCfg
+			cfg.Checksum = alg == 1
+			cfg.NTypes = pick(e.R, 35, 38, 40, 41, 27+e.R.Intn(229), 255)
+			cfg.SrvVer = string(randBytes(e.R, pick(e.R, 0, 1, 49, 50, e.R.Intn(51))))
+			for j := 0; j < len(cfg.SrvVer); j++ { // a server version has no NUL bytes
+				if cfg.SrvVer[j] == 0 {
+					cfg.SrvVer = cfg.SrvVer[:j] + "x" + cfg.SrvVer[j+1:]
+				}
+			}
+			ts, sid, np, flags := e.R.Uint32(), e.R.Uint32(), e.R.Uint32(), uint16(e.R.Intn(65536))
+			if i%5 == 0 {
+				ts, sid, np = []uint32{0, 1, 1<<31 - 1, 1 << 31, 1<<32 - 1}[e.R.Intn(5)], []uint32{0, 1<<32 - 1, 1 << 31}[e.R.Intn(3)], []uint32{0, 4, 1<<32 - 1, 1 << 31}[e.R.Intn(4)]
+			}
+			// FORMAT_DESCRIPTION
+			fb := fdeBody(cfg, e.R.Uint32(), byte(alg))
+			fraw := mkEvent(ts, tFormatDesc, sid, np, flags, fb, true)
+			fev := replication.NewMysql56BinlogEvent(fraw)
+			var f replication.BinlogFormat
+			var ferr error
+			rec := safely(func() { f, ferr = fev.Format() })
+			hs := []int{}
+			for _, b := range f.HeaderSizes {
+				hs = append(hs, int(b))
+			}
+			emitCase(e, M{"fn": "ev.fde", "cls": "fde", "alg": alg, "ts": u32s(ts), "sid": u32s(sid), "np": u32s(np), "len": len(fraw),
+				"srvver": B(cfg.SrvVer), "sizes": B(cfg.postHeaderLens()),
+				"obs": M{"err": ferr != nil, "panic": rec.panicked, "valid": fev.IsValid(), "isfde": fev.IsFormatDescription(), "ts": u32s(fev.Timestamp()),
+					"np": strconv.FormatInt(fev.NextPosition(), 10), "version": int(f.FormatVersion), "srvver": B(f.ServerVersion), "hlen": int(f.HeaderLength),
+					"alg": int(f.ChecksumAlgorithm), "sizes": hs}})
+			if ferr != nil || rec.panicked {
+				continue
+			}
+			crc := alg == 1
+			lastValid := false
+			dec := func(typ byte, body []byte) replication.BinlogEvent {
+				raw := mkEvent(ts, typ, sid, np, flags, body, crc)
+				ev := replication.NewMysql56BinlogEvent(raw)
+				lastValid = ev.IsValid()
+				ev, _, _ = ev.StripChecksum(f)
+				return ev
+			}
+			hdr := func(ev replication.BinlogEvent) M {
+				return M{"valid": lastValid, "ts": u32s(ev.Timestamp()), "np": strconv.FormatInt(ev.NextPosition(), 10)}
+			}
+			// ROTATE
+			rname := string(randBytes(e.R, pick(e.R, 1, 16, 255, e.R.Intn(100)+1)))
+			rpos := e.R.Uint64() >> uint(e.R.Intn(64))
+			rev := dec(tRotate, rotateBody(rpos, rname))
+			var gotName string
+			var gotPos int64
+			var rerr error
+			rec = safely(func() { gotName, gotPos, rerr = rev.Rotate(f) })
+			o := hdr(rev)
+			o["err"], o["panic"], o["is"], o["file"], o["pos"] = rerr != nil, rec.panicked, rev.IsRotate(), B(gotName), B(strconv.FormatUint(uint64(gotPos), 10))
+			emitCase(e, M{"fn": "ev.rotate", "cls": "rotate", "alg": alg, "ts": u32s(ts), "np": u32s(np), "file": B(rname), "pos": B(strconv.FormatUint(rpos, 10)), "obs": o})
+			// QUERY
+			vars, cs, codes := statusVars(e.R)
+			db := string(randBytes(e.R, pick(e.R, 0, 1, 255, e.R.Intn(64))))
+			for j := 0; j < len(db); j++ {
+				if db[j] == 0 {
+					db = db[:j] + "d" + db[j+1:]
+				}
+			}
+			sql := string(randBytes(e.R, pick(e.R, 0, 1, 64, e.R.Intn(300), e.N(2000, 65536))))
+			qev := dec(tQuery, queryBody(e.R.Uint32(), e.R.Uint32(), db, uint16(e.R.Intn(65536)), vars, sql))
+			var q replication.Query
+			var qerr error
+			rec = safely(func() { q, qerr = qev.Query(f) })
+			o = hdr(qev)
+			ocs := []int{-1, -1, -1}
+			if q.Charset != nil {
+				ocs = []int{int(q.Charset.Client), int(q.Charset.Conn), int(q.Charset.Server)}
+			}
+			o["err"], o["panic"], o["is"], o["db"], o["sql"], o["charset"] = qerr != nil, rec.panicked, qev.IsQuery(), B(q.Database), B(q.SQL), ocs
+			emitCase(e, M{"fn": "ev.query", "cls": "query", "alg": alg, "ts": u32s(ts), "np": u32s(np), "db": B(db), "sql": B(sql), "charset": cs, "codes": codes, "obs": o})
+			// XID / INTVAR / RAND
+			xev := dec(tXid, le64(e.R.Uint64()))
+			o = hdr(xev)
+			o["is"] = xev.IsXID()
+			emitCase(e, M{"fn": "ev.xid", "cls": "xid", "alg": alg, "ts": u32s(ts), "np": u32s(np), "obs": o})
+			ivk := byte(1 + e.R.Intn(2))
+			ivv := e.R.Uint64()
+			iev := dec(tIntVar, append([]byte{ivk}, le64(ivv)...))
+			var gk byte
+			var gv uint64
+			var ierr error
+			rec = safely(func() { gk, gv, ierr = iev.IntVar(f) })
+			o = hdr(iev)
+			o["err"], o["panic"], o["is"], o["kind"], o["value"] = ierr != nil, rec.panicked, iev.IsIntVar(), int(gk), B(strconv.FormatUint(gv, 10))
+			emitCase(e, M{"fn": "ev.intvar", "cls": "intvar", "alg": alg, "ts": u32s(ts), "np": u32s(np), "kind": int(ivk), "value": B(strconv.FormatUint(ivv, 10)), "obs": o})
+			s1, s2 := e.R.Uint64(), e.R.Uint64()
+			dev := dec(tRand, append(le64(s1), le64(s2)...))
+			var g1, g2 uint64
+			rec = safely(func() { g1, g2, _ = dev.Rand(f) })
+			o = hdr(dev)
+			o["panic"], o["is"], o["s1"], o["s2"] = rec.panicked, dev.IsRand(), B(strconv.FormatUint(g1, 10)), B(strconv.FormatUint(g2, 10))
+			emitCase(e, M{"fn": "ev.rand", "cls": "rand", "alg": alg, "ts": u32s(ts), "np": u32s(np), "s1": B(strconv.FormatUint(s1, 10)), "s2": B(strconv.FormatUint(s2, 10)), "obs": o})
+		}
+	}
+}
+
+// modeC17a: the validity test on arbitrary bytes; header accessors on accepted buffers.
+func modeC17a(e *Env) {
+	try := func(buf []byte, cls string) {
+		ev := replication.NewMysql56BinlogEvent(buf)
+		valid := false
+		rec := safely(func() { valid = ev.IsValid() })
+		o := M{"valid": valid, "panic": rec.panicked, "accpanic": false}
+		if valid && !rec.panicked {
+			r2 := safely(func() {
+				_ = ev.Timestamp()
+				_ = ev.NextPosition()
+				_ = ev.IsFormatDescription()
+				_ = ev.IsQuery()
+				_ = ev.IsXID()
+				_ = ev.IsGTID()
+				_ = ev.IsRotate()
+				_ = ev.IsIntVar()
+				_ = ev.IsRand()
+				_ = ev.IsPreviousGTIDs()
+				_ = ev.IsRowsQuery()
+				_ = ev.IsTableMap()
+				_ = ev.IsWriteRows()
+				_ = ev.IsUpdateRows()
+				_ = ev.IsDeleteRows()
+				_ = ev.IsPseudo()
+				_ = ev.Bytes()
+			})
+			o["accpanic"] = r2.panicked
+		}
+		emitCase(e, M{"fn": "isvalid", "cls": cls, "buf": B(buf), "obs": o})
+	}
+	// structured classes: every length 0..64 x length field in {len-1, len, len+1, 0, 18, 19, 2^32-1} x some type bytes
+	for l := 0; l <= 64; l++ {
+		for _, lf := range []int64{int64(l) - 1, int64(l), int64(l) + 1, 0, 18, 19, 1<<32 - 1, int64(l) + 256, int64(l) + 65536, int64(l) + 1<<24} {
+			for _, typ := range []byte{0, 2, 15, 16, 19, 255} {
+				buf := randBytes(e.R, l)
+				if l >= 5 {
+					buf[4] = typ
+				}
+				if l >= 13 && lf >= 0 {
+					copy(buf[9:13], le32(uint32(lf)))
+				}
+				try(buf, "structured")
+			}
+		}
+	}
+	// every well-formed event of a history truncated at / extended from every length
+	lg := GenLog(e.R, allCfgs()[e.R.Intn(len(allCfgs()))], smallGP(), nil)
+	evs, _ := lg.Served(lg.Boundaries()[0])
+	for _, ev := range evs {
+		for l := 0; l <= len(ev.Bytes); l++ {
+			try(ev.Bytes[:l], "truncated")
+		}
+		for x := 1; x <= 3; x++ {
+			try(append(append([]byte{}, ev.Bytes...), randBytes(e.R, x)...), "extended")
+		}
+	}
+	for i := 0; i < e.N(300, 20000); i++ {
+		try(randBytes(e.R, e.R.Intn(400)), "random")
+	}
+}
